@@ -49,6 +49,17 @@ pub fn setup() -> Cfg {
     reset_recorders();
     Cfg { env, owner, hub_address, chain_name, wasm }
 }
+/// a chain name argument: an arbitrary short name, or one of the names the service itself knows (the hub's literal name, its own configured name)
+pub fn any_chain_arg(c: &Cfg) -> String {
+    let pick: u8 = kani::any();
+    if pick == 0 {
+        hub_chain(&c.env)
+    } else if pick == 1 {
+        c.chain_name.clone()
+    } else {
+        any::string(2)
+    }
+}
 pub fn seed_trusted(chain: &String, trusted: bool) {
     model::storage_set_if(trusted, &its(), 1, &k(&DataKey::TrustedChain(chain.clone())), &Val::VOID);
 }
